@@ -6,7 +6,6 @@ use std::fmt::Display;
 use std::fmt::Error;
 use std::fmt::Formatter;
 use std::fs::DirEntry;
-use std::fs::File;
 use std::io::prelude::*;
 use std::str::FromStr;
 use std::time::Duration;
@@ -22,7 +21,7 @@ use xattr::FileExt;
 
 use crate::fileinfo::FileInfo;
 use crate::util::{capitalize, error_exit, format_date, format_datetime};
-use crate::util::{parse_filesize, parse_datetime, str_to_bool};
+use crate::util::{open_file, parse_filesize, parse_datetime, str_to_bool};
 
 #[derive(Clone, Debug)]
 pub enum VariantType {
@@ -843,7 +842,7 @@ pub fn get_value(
             }
 
             if let Some(entry) = entry {
-                if let Ok(mut f) = File::open(entry.path()) {
+                if let Ok(mut f) = open_file(entry.path()) {
                     let mut contents = String::new();
                     if f.read_to_string(&mut contents).is_ok() {
                         if contents.contains(&function_arg) {
@@ -860,7 +859,7 @@ pub fn get_value(
         #[cfg(unix)]
         Some(Function::HasXattr) => {
             if let Some(entry) = entry {
-                if let Ok(file) = File::open(entry.path()) {
+                if let Ok(file) = open_file(entry.path()) {
                     if let Ok(xattr) = file.get_xattr(&function_arg) {
                         return Variant::from_bool(xattr.is_some());
                     }
@@ -872,7 +871,7 @@ pub fn get_value(
         #[cfg(unix)]
         Some(Function::Xattr) => {
             if let Some(entry) = entry {
-                if let Ok(file) = File::open(entry.path()) {
+                if let Ok(file) = open_file(entry.path()) {
                     if let Ok(Some(xattr)) = file.get_xattr(&function_arg) {
                         if let Ok(value) = String::from_utf8(xattr) {
                             return Variant::from_string(&value);
@@ -886,7 +885,7 @@ pub fn get_value(
         #[cfg(target_os = "linux")]
         Some(Function::HasCapabilities) => {
             if let Some(entry) = entry {
-                if let Ok(file) = File::open(entry.path()) {
+                if let Ok(file) = open_file(entry.path()) {
                     if let Ok(caps_xattr) = file.get_xattr("security.capability") {
                         return Variant::from_bool(caps_xattr.is_some());
                     }
@@ -898,7 +897,7 @@ pub fn get_value(
         #[cfg(target_os = "linux")]
         Some(Function::HasCapability) => {
             if let Some(entry) = entry {
-                if let Ok(file) = File::open(entry.path()) {
+                if let Ok(file) = open_file(entry.path()) {
                     if let Ok(Some(caps_xattr)) = file.get_xattr("security.capability") {
                         let caps_string = crate::util::capabilities::parse_capabilities(caps_xattr);
                         return Variant::from_bool(caps_string.contains(&function_arg));
